@@ -35,7 +35,7 @@ THEOREMS = (["Gozod.C20.bisim_sound", "Gozod.C20.bisim_sound_full"]
     + ["Gozod.C20.tail_spec", "Gozod.C20.goDatePrefix_split", "Gozod.C20.tail_guard_go", "Gozod.C20.c20_isodatetime"]
     # IPv6 / CIDRv6 patterns on the strings with a dotted quad: all strings without '%' outside the excluded region Fmt.*QuadDefect; then all strings
     + ["Gozod.C20.ipv6_octet_quot", "Gozod.C20.cidrv6_octet_quot", "Gozod.C20.c20_ipv6_pattern_nozone", "Gozod.C20.c20_cidrv6_pattern_nozone",
-       "Gozod.C20.c20_ipv6_defects_excluded", "Gozod.C20.run_false_of_foreign", "Gozod.C20.c20_ipv6_pattern_partial_all", "Gozod.C20.c20_cidrv6_pattern_partial_all"]
+       "Gozod.C20.c20_ipv6_defects_excluded", "Gozod.C20.ipv6QuadDefect_nodot", "Gozod.C20.cidrv6QuadDefect_nodot", "Gozod.C20.run_false_of_foreign", "Gozod.C20.c20_ipv6_pattern_partial_all", "Gozod.C20.c20_cidrv6_pattern_partial_all"]
     # validator side of Base64URL: pattern AND the length rule = RFC 4648 §5, all strings
     + ["Gozod.C20.run_inv", "Gozod.C20.base64url_len", "Gozod.C20.badLen_len", "Gozod.C20.c20_base64url"]
     # validator side of CIDRv4: netip.ParsePrefix / ParseAddr / parseIPv4Fields / strconv.Atoi transcribed from the Go source = the definition, all strings
@@ -52,10 +52,10 @@ THEOREMS = (["Gozod.C20.bisim_sound", "Gozod.C20.bisim_sound_full"]
 # certificate job -> format name of the correspondence
 JOB_FORMAT = {"isodatetime_optsec": "isodatetime", "isodatetime_partial": "isodatetime", "base64url_partial": "base64url",
               "dtt_rfc_optsec": "isodatetime", **{"dtt_" + x: "dto_" + x for x in DTO},
-              "ipv6_nopct": "ipv6", "ipv6_partial": "ipv6", "cidrv6_nopct": "cidrv6", "cidrv6_partial": "cidrv6",
+              "ipv6_nopct": "ipv6", "cidrv6_nopct": "cidrv6",
               "ipv6_dot": "ipv6", "cidrv6_dot": "cidrv6", "isotime_pat": "isotime", "isotime_partial": "isotime"}
 # jobs whose certificate the proof module imports (a `differ` there breaks a theorem)
-REQUIRED_JOBS = set(REGEX_FORMATS) | {"cidrv4", "isodate", "isodatetime_optsec", "isodatetime_partial", "base64url_partial"} | set(OPTION_JOBS) | {"ipv6_partial", "cidrv6_partial", "ipv6_dot", "cidrv6_dot", "isotime_pat", "isotime_partial", "isotime"} | set(TAIL_JOBS)
+REQUIRED_JOBS = set(REGEX_FORMATS) | {"cidrv4", "isodate", "isodatetime_optsec", "isodatetime_partial", "base64url_partial"} | set(OPTION_JOBS) | {"ipv6_dot", "cidrv6_dot", "isotime_pat", "isotime_partial", "isotime"} | set(TAIL_JOBS)
 
 GEN = os.path.join(C.LEAN, "Gozod", "Gen")
 
